@@ -83,12 +83,26 @@ def gen_lex_cases(ctx, mut, mutmod, mutlen, tag):
     return [{"id": "%s#%s%d" % (tag, t["kind"], i), "text": t["text"]} for i, t in enumerate(texts)]
 
 
-def inputs(ctx, h, which):
+SPANDOC_CFG = """SPECIFICATION Spec
+INVARIANT Agree
+INVARIANT Emit
+CHECK_DEADLOCK FALSE
+"""
+
+
+def inputs(ctx, h, which, selfcheck=True):
     """Build the input texts of this run; returns list of (tag, path-to-texts.ndjson)."""
     out = []
     corpus = ctx.path("corpus.ndjson")
     ctx.harness(h, ["gen-corpus", "--dir", os.path.join(core.ROOT, "corpus"), "--out", corpus])
-    label_selfcheck(ctx, corpus)
+    if selfcheck:
+        label_selfcheck(ctx, corpus)
+    if "spandocs" in which:
+        from . import apicheck
+        recs = apicheck.tlc_texts(ctx, "MCSpanDocs", SPANDOC_CFG, "spandocs")
+        p = ctx.path("spandocs.ndjson")
+        core.write_ndjson(p, recs)
+        out.append(("spandocs", p))
     if "corpus" in which:
         out.append(("corpus", corpus))
     if "mutants" in which:
@@ -111,6 +125,14 @@ def inputs(ctx, h, which):
         core.write_ndjson(p, recs)
         out.append(("dates", p))
     if "doc" in which:
+        if ctx.prop in ("C14", "C15", "C20", "C04"):
+            models = [(3, 2, 1, "doc-n3p2"), (2, 3, 2, "doc-n2p3r")] if ctx.quick else [(3, 3, 2, "doc-n3p3r")]
+            for (n, pth, rich, tag) in models:
+                recs = gen_doc_cases(ctx, n, pth, rich, tag)
+                p = ctx.path(tag + ".ndjson")
+                core.write_ndjson(p, recs)
+                out.append((tag, p))
+            return out
         if ctx.prop == "C09":
             models = [(3, 3, 0, "doc-n3p3v0"), (2, 3, 2, "doc-n2p3r")] if ctx.quick else \
                      [(4, 2, 1, "doc-n4p2"), (3, 3, 2, "doc-n3p3r")]
@@ -174,12 +196,33 @@ def run_parse(ctx, which, want, subcmd="parse-events", features=("preserve_order
     """want: set of mismatch kinds that are violations of ctx.prop ("verdict", "tree", "panic")."""
     h = ctx.build(features=features)
     ins = inputs(ctx, h, which)
+    process_inputs(ctx, h, ins, want, subcmd)
+
+
+def run_more(ctx, h, which, want, subcmd):
+    """a second pass with another recorder over already generated inputs (files are reused when present)"""
+    ins = []
+    for w in which:
+        for f in sorted(os.listdir(ctx.work)):
+            if f.endswith(".ndjson") and (f.startswith(w) or (w == "doc" and f.startswith("doc-"))):
+                ins.append((f[:-7] + "+" + subcmd, os.path.join(ctx.work, f)))
+    have = {w for w in which if any(t.startswith(w) for t, _ in ins)}
+    missing = set(which) - have
+    if missing:
+        ins += [(t + "+" + subcmd, p) for t, p in inputs(ctx, h, missing, selfcheck=False)]
+    process_inputs(ctx, h, ins, want, subcmd)
+
+
+def process_inputs(ctx, h, ins, want, subcmd):
     total_u1 = 0
     other = 0
     accepted = 0
     for tag, path in ins:
         evp = ctx.path(tag + ".ev")
-        ctx.harness(h, [subcmd, "--in", path, "--out", evp])
+        extra = []
+        if subcmd == "span-events" and not tag.startswith("spandocs"):
+            extra = ["--typed-mod", 7 if ctx.quick else 2]
+        ctx.harness(h, [subcmd, "--in", path, "--out", evp] + extra)
         mism, u1, n = ctx.validate(evp)
         total_u1 += len(u1)
         # coverage: distinct non-trivial = distinct texts with at least one statement-like line
@@ -187,12 +230,13 @@ def run_parse(ctx, which, want, subcmd="parse-events", features=("preserve_order
             t = e.get("text")
             if t is None:
                 continue
-            if any(r["res"] == "ok" for r in e["r"]):
+            rs = e.get("r", [])
+            if any(r.get("res") == "ok" for r in rs) or e.get("res") == "ok":
                 accepted += 1
             if len(t) >= 3:
                 ctx.nontrivial.add(hash(tuple(t)))
-            if len(ctx.samples) < 6 and len(t) < 80 and (len(ctx.samples) % 2 == 0 or any(r["res"] == "ok" for r in e["r"])):
-                ctx.sample({"input": tag, "text": core.uncps(t), "impl": [[r["fe"], r["res"]] for r in e["r"]]})
+            if len(ctx.samples) < 6 and len(t) < 80 and (len(ctx.samples) % 2 == 0 or any(r.get("res") == "ok" for r in rs)):
+                ctx.sample({"input": tag, "text": core.uncps(t), "impl": [[r.get("fe"), r.get("res", r.get("span"))] for r in (rs or e.get("errs", []))] or e.get("res")})
         log("%s: %d events validated, %d mismatches, %d in class U1" % (tag, n, len(mism), len(u1)))
         for m in mism:
             if m["what"] not in want:
@@ -203,9 +247,9 @@ def run_parse(ctx, which, want, subcmd="parse-events", features=("preserve_order
             ctx.report(summary, {"kind": "parse", "event": m["event"], "what": m["what"], "detail": m["detail"],
                                  "text": text}, classify_known(ctx, m))
         os.remove(evp)
-    ctx.extra["skipped_u1"] = total_u1
-    ctx.extra["mismatches_belonging_to_other_properties"] = other
-    ctx.extra["texts_accepted_by_some_front_end"] = accepted
+    ctx.extra["skipped_u1"] = ctx.extra.get("skipped_u1", 0) + total_u1
+    ctx.extra["mismatches_belonging_to_other_properties"] = ctx.extra.get("mismatches_belonging_to_other_properties", 0) + other
+    ctx.extra["texts_accepted_by_some_front_end"] = ctx.extra.get("texts_accepted_by_some_front_end", 0) + accepted
     ctx.evaluations = ctx.validated
 
 
